@@ -383,11 +383,62 @@ func genReq(t *rapid.T, spec *SysSpec, prof IngressProfile) *ReqSpec {
 	return rs
 }
 
-func genReloadSpec(t *rapid.T, spec *SysSpec) *SysSpec {
+func genReloadSpec(t *rapid.T, spec *SysSpec, profs ...IngressProfile) *SysSpec {
 	b, _ := json.Marshal(spec)
 	var ns SysSpec
 	_ = json.Unmarshal(b, &ns)
-	switch rapid.IntRange(0, 3).Draw(t, "reloadkind") {
+	kinds := 3
+	var prof IngressProfile
+	if len(profs) > 0 && profs[0].Match {
+		// route-table changes: a route drawn afresh (new match criteria, auth,
+		// channel), removed, added, moved
+		prof = profs[0]
+		kinds = 7
+	}
+	switch rapid.IntRange(0, kinds).Draw(t, "reloadkind") {
+	case 4:
+		i := rapid.IntRange(0, len(ns.Routes)-1).Draw(t, "regen")
+		old := ns.Routes[i]
+		ns.Routes[i] = genRoute(t, prof, old.Path, i)
+		// the queue side of a route stays (mode changes are another matter)
+		ns.Routes[i].PullPath, ns.Routes[i].Deliver, ns.Routes[i].Concurrency = old.PullPath, old.Deliver, old.Concurrency
+		if (ns.Routes[i].Channel == "outbound") != (old.Channel == "outbound") || (ns.Routes[i].Channel == "internal") != (old.Channel == "internal") {
+			ns.Routes[i].Channel = old.Channel
+		}
+	case 5:
+		if len(ns.Routes) > 1 {
+			i := rapid.IntRange(0, len(ns.Routes)-1).Draw(t, "remove")
+			ns.Routes = append(ns.Routes[:i], ns.Routes[i+1:]...)
+		} else {
+			ns.Comment = "r"
+		}
+	case 6:
+		used := map[string]bool{}
+		for _, r := range ns.Routes {
+			used[r.Path] = true
+		}
+		added := false
+		for _, pth := range sysPaths {
+			if !used[pth] {
+				nr := genRoute(t, prof, pth, 7)
+				if nr.Channel == "" || nr.Channel == "inbound" {
+					at := rapid.IntRange(0, len(ns.Routes)).Draw(t, "addat")
+					ns.Routes = append(ns.Routes[:at], append([]RouteSpec{nr}, ns.Routes[at:]...)...)
+					added = true
+				}
+				break
+			}
+		}
+		if !added {
+			ns.Comment = "a"
+		}
+	case 7:
+		if len(ns.Routes) > 1 {
+			i := rapid.IntRange(0, len(ns.Routes)-2).Draw(t, "swap")
+			ns.Routes[i], ns.Routes[i+1] = ns.Routes[i+1], ns.Routes[i]
+		} else {
+			ns.Comment = "s"
+		}
 	case 0:
 		ns.Comment = "touched " + fmt.Sprint(rapid.IntRange(0, 9).Draw(t, "touch"))
 	case 1:
@@ -429,7 +480,7 @@ func GenIngressProgram(t *rapid.T, prof IngressProfile) *Program {
 		case k < 18 || !prof.Reload:
 			p.Steps = append(p.Steps, Step{Op: "advance", D: rapid.SampledFrom(advances).Draw(t, "d")})
 		default:
-			ns := genReloadSpec(t, cur)
+			ns := genReloadSpec(t, cur, prof)
 			p.Steps = append(p.Steps, Step{Op: "reload", NewSpec: ns})
 			cur = ns
 		}
